@@ -12,15 +12,24 @@ PROPS["C16"] = dict(
          "prefix (hostile constant / body length -2..+2 / 2^63+-24, 2^64-24.. / 2^(7k)+-2 / small / random 64-bit; minimal or "
          "over-long; 1..12 arbitrary or all-80/all-ff groups, terminated or not) + 0..20 body bytes; rapid mutation: 1..3 "
          "valid items with one truncation / bit flip / extreme byte / extended prefix / deletion / append / prefix +-3. "
+         "Buffer-reuse histories (second case type): 2..5 (a tenth of the cases 6..16) inputs copied one after the other into the SAME memory (one arena per "
+         "case and presentation) and decoded from there by every function, at offset 0 and at the offsets where the following "
+         "items start; a round is 1..3 length-prefixed items with the previous round's lengths and new content (offsets "
+         "coincide), or new lengths, or a grammar / mutated input; exhaustive over all histories of 2..3 (thorough 4) rounds "
+         "from 15 inputs and 36 streams (one buffer refilled 12 / 24 times with a different record of the same shape); same oracle per call on what the memory holds NOW, plus: whatever was returned with newBuf=true in an "
+         "earlier round still holds the bytes it held then. "
          "Not asserted: rejection of over-long or >64-bit varints, decoded values, error texts. "
          "non-trivial = the leading varint terminates inside the input and its value (mod 2^64) is larger than the number of "
-         "bytes that follow it or >= 2^31; distinct = FNV hash of the input bytes",
+         "bytes that follow it or >= 2^31; a history is non-trivial when a later round changed the memory; "
+         "distinct = FNV hash of the input bytes / of the history's JSON form",
     assumptions=["'sub-range of the input' is checked against in[0:len], not against the capacity",
                  "the native fuzzing stage (thorough) uses a test binary built with -fuzz (coverage instrumentation) and is seeded with the hostile inputs"],
     units=[
         dict(name="exhaustive", run="^TestC16Exhaustive$", shards=(4, 16), timeout=(200, 600)),
         dict(name="grammar", run="^TestC16RapidGrammar$", checks=(30000, 400000), shards=(2, 16), timeout=(200, 600)),
         dict(name="mutate", run="^TestC16RapidMutate$", checks=(30000, 400000), shards=(2, 16), timeout=(200, 600)),
+        dict(name="history_exhaustive", run="^TestC16HistoryExhaustive$", shards=(1, 4), timeout=(200, 600)),
+        dict(name="history", run="^TestC16RapidHistory$", checks=(15000, 200000), shards=(2, 16), timeout=(200, 600)),
         dict(name="fuzz", run="^FuzzC16$", fuzz=(None, "^FuzzC16$"), enabled=(False, True), serial=True, shards=1, timeout=(200, 400),
              args=([], ["-test.fuzz=^FuzzC16$", "-test.fuzztime=120s", "-test.fuzzcachedir={rundir}/fuzzcache", "-test.parallel=16"]),
              env={"VERIF_STATS_PERPID": "1"}),
